@@ -354,3 +354,10 @@ func FirstDiff(a, b string) string {
 }
 
 var _ = errorT
+
+// HashString is the 64-bit FNV-1a hash of a string.
+func HashString(s string) uint64 {
+	h := fnv.New64a()
+	h.Write([]byte(s))
+	return h.Sum64()
+}
